@@ -134,6 +134,12 @@ func runC08(b *runner.Batch) {
 			hs = append(hs, c08Near(b))
 		}
 		b.HitN("double-resize-histories", len(hs))
+		if b.Index == nSingleBatches+c08Quick2/c08ChunkQ {
+			// a ring of more than 128 slots, filled, cut down and grown again: slot numbers above 127 are the first
+			// whose one-byte key is not what an integer-to-string conversion yields (seeded change C08-8)
+			hs = append(hs[:c08ChunkQ-1:c08ChunkQ-1], c08History{resizes: []resize{{0, 131}, {133, 3}, {134, 131}}, extra: 3})
+			b.Hit("history-with-more-than-128-slots")
+		}
 	default:
 		k := b.Index - nSingleBatches
 		nDouble := (c08DoubleCount() + c08ChunkT - 1) / c08ChunkT
@@ -155,6 +161,11 @@ func runC08(b *runner.Batch) {
 				hs = append(hs, h)
 			}
 			b.HitN("random-long-histories", len(hs))
+			if k == nDouble {
+				hs = append(hs, c08History{resizes: []resize{{0, 131}, {133, 3}, {134, 131}}, extra: 3},
+					c08History{resizes: []resize{{0, 200}, {210, 127}, {212, 129}, {215, 200}}, extra: 3})
+				b.Hit("history-with-more-than-128-slots")
+			}
 		}
 	}
 	for i, h := range hs {
@@ -432,7 +443,7 @@ func init() {
 		Rule:        "Histories from the deploy state (count 10): epochs advance by one, every epoch's map is unique (a node named after the epoch joins both lists before tick e and leaves after tick e+2); quick = all 403 single-resize histories (count 0..12 x resize epoch 0..30) + 600 PRNG-chosen two-resize histories + 600 PRNG-chosen 'near' two-resize histories (second resize 0-2 ticks after the first, counts within 3 of the previous count); thorough = all 83 824 two-resize histories + 256 random histories with 5 resizes. After every resize and every later tick a read sweep (snapshot(d) d=0..14, snapshotByEpoch and listNodes for 17 epochs around the window, netmap) is compared with the model's retention windows, and the raw storage is scanned for ring slots / structured lists outside the window. distinct = (old count, new count, epoch, window, outcome) for resizes and (count, windows) for ticks after a resize.",
 		Assumptions: append(tb, "a resize that faults is not judged beyond 'changed nothing' (the statement constrains accepted counts)"),
 		Batches:     c08Batches, Chunk: 1,
-		Floors: []string{"resize-accepted:grow", "resize-accepted:shrink", "resize-accepted:shrink-before-wrap", "shrink-after-wrap", "window-full-after-resize", "resize-refused:same", "near-double-resize-histories", "tick-publishing-an-empty-map", "legacy-read-inside-window", "structured-read-inside-window", "structured-read-outside-window"},
+		Floors: []string{"resize-accepted:grow", "resize-accepted:shrink", "resize-accepted:shrink-before-wrap", "shrink-after-wrap", "window-full-after-resize", "resize-refused:same", "near-double-resize-histories", "history-with-more-than-128-slots", "tick-publishing-an-empty-map", "legacy-read-inside-window", "structured-read-inside-window", "structured-read-outside-window"},
 		Run:    runC08,
 		Exhaustive: func(tier string) (bool, string) {
 			if tier == "thorough" {
